@@ -211,7 +211,7 @@ Qed.
 Section DynTyped.
   Variable c : cfg.
   Hypothesis Hc : idx_ok c.
-  Hypothesis Hf : float_ok_all c.
+  Hypothesis Hf : float_ok_valid c.
   Hypothesis Hsm : cfg_small c.
   Variables (d : @dyn index) (m : amap).
   Hypothesis Hh : thist c d m.
